@@ -193,6 +193,28 @@ def one_dryrun(ctx, rng, idx):
         return
     compare(ctx, "dryrun", desc, want, case)
     ctx.distinct(("dry", idx))
+    # once more inside the SAME loaded module (no reload: module-level state survives), same connection, other ids
+    if rng.random() < 0.5:
+        bank2, broker2 = str(rng.randint(10**8, 10**9 - 1)), f"second{rng.randint(1, 99)}.broker.com"
+        argv2 = [a for a in argv]
+        for flag, val in (("--bankid", bank2), ("--brokerid", broker2)):
+            if flag == "--brokerid" and cmd != "stmt":
+                continue
+            if flag in argv2:
+                argv2[argv2.index(flag) + 1] = val
+            else:
+                argv2 += [flag, val]
+        inv2, _ = cli.run_main(argv2, reload=False)
+        ctx.ev()
+        ctx.count("dryrun_invocations")
+        ctx.count("second_invocations_same_module")
+        case2 = dict(case, argv=argv2, second_in_same_module=True)
+        data2 = cli.extract_request(inv2.stdout) if inv2.exc is None else None
+        if data2 is None:
+            ctx.violation("dryrun/second-invocation-fails", f"ofxget {' '.join(argv2)} (second call in one process): {inv2.exc!r}", case2)
+        else:
+            want2 = expected_requests(cmd, accts, bank2, broker2 if cmd == "stmt" else broker_cfg, dts, flags)
+            compare(ctx, "dryrun-second-call", ref_request.describe(data2), want2, case2)
     return argv
 
 
